@@ -85,3 +85,20 @@ Definition crash (f : fs) (i : nat) (r : run_rec) (k : nat) : fs := fold_left ap
 (* the slot of the n-th run (1-based) *)
 Definition slot_of_run (n : nat) : nat := S ((n - 1) mod M).
 End T.
+
+(* a history during which max_retained_runs was edited between runs: each run comes with the limit it ran under *)
+Definition history_var (atomic_save : bool) (rs : list (nat * run_rec)) : fs :=
+  fold_left (fun f mr => do_run (fst mr) atomic_save f (snd mr)) rs fs0.
+
+(* invocations of `run` that are rejected before anything is executed (unknown target or sequence, invalid argmap, ...) interleaved with
+   completed runs.  [early_wipe] = true: the slot of the next run is recycled before the invocation is validated (pinned commit);
+   false: only a valid invocation touches the store (code as it is now). *)
+Inductive invocation := Completes (r : run_rec) | Rejected.
+Definition do_invocation (M : nat) (early_wipe : bool) (f : fs) (v : invocation) : fs :=
+  match v with
+  | Completes r => do_run M true f r
+  | Rejected => if early_wipe then match next_id M f with Some i => fold_left apply [Wipe i; Mkdir i] f | None => f end else f
+  end.
+Definition invocations (M : nat) (early_wipe : bool) (vs : list invocation) : fs := fold_left (do_invocation M early_wipe) vs fs0.
+Definition completed (vs : list invocation) : list run_rec :=
+  flat_map (fun v => match v with Completes r => [r] | Rejected => [] end) vs.
